@@ -791,7 +791,7 @@ def explore_gen_threads(case):
         for relative in (False, True):
             fa, fb = gen(Es[a], {}, "a", relative), gen(Es[b], dict(with_header=False), "b", relative)
             for choices, results, npts, capped in threads.explore([fa, fb], ("cyecca/codegen.py", "cyecca/models/", "cyecca/estimate/attitude/algorithms/__init__.py"),
-                                                                  1 if case["tier"] == "quick" else 2, max_runs=(400 if case["tier"] == "quick" else 5000)):
+                                                                  1 if case["tier"] == "quick" else 2, max_runs=(400 if case["tier"] == "quick" else 1500)):
                 if capped:
                     res.counters["thread_schedules_capped"] += 1
                     break
